@@ -4,6 +4,10 @@ import json, os
 HERE = os.path.dirname(os.path.dirname(os.path.abspath(__file__)))
 
 CLAIMED = {
+ 'C16': ('set-typed expression inference over all of giscanner + order-sensitivity lint of every iteration site, symbolic writer loop table, nondeterminism-source sweep, control-dependence rule at the cache call site',
+         'Decides the structural necessary conditions for every run: no order-sensitive walk over a set in the modules that feed the writer (sorted/min/max wrappers, or bodies with only set updates and diagnostics; one reviewed exception); every emitting loop of GIRWriter iterates sorted(...) or a reviewed order-carrying list and the namespace is written aliases-first in sorted order; comma-joined attributes come from lists; no hash/id/random/time/unsorted listings; cache hit/miss controls only parse+store, included namespaces are registered in sorted order, cache freshness uses full-resolution mtimes; the first compound seen for a C tag stays in the tag namespace.',
+         'NOT decided (not applicable): that permuting comment blocks, source files or declarations yields the same model (behavioural; duplicate comment blocks for one identifier are last-wins by documented design). Trusted: CPython ast.',
+         '§4 C16'),
  'C05': ('guarded-effect tables (control dependence of every demotion store and warning), return-row queries on the type predicate, registered-pass coverage and round count, both-sides pairing rules',
          'Decides for every namespace the structural necessary conditions: each unbindable clause (unresolved, varargs, untyped list/array elements, callback without scope, callback return, owned bare struct, missing transfer) has a demoting row and every parameter warning is paired with the demotion; aliases are looked through; the type predicate rejects unresolved/unknown/va_list/long long/long double/missing or hidden targets and recurses into containers; aliases, parameters, returns, fields, embedded callbacks, properties and signals each have a demoting site in a registered pass and propagation runs twice; property accessors are recorded and cleared on both sides together, the emitter is compared pairwise, index and type names go through raising lookups.',
          'Not decided: that type resolution finds the right definition for a given input; transitive include introspectability; propagation chains deeper than the registered rounds. Trusted: CPython ast.',
